@@ -113,6 +113,15 @@ func b58(a common.Address) string { return a.ToBase58() }
 
 func samePassword(a, b []byte) bool { return hmacNorm(a) == hmacNorm(b) }
 
+// safeTag is pwTag for sampled passwords: the one candidate derived from the (random) address
+// must not leave a trace-visible digest.
+func safeTag(name string, p []byte) string {
+	if strings.HasPrefix(name, "address") {
+		return fmt.Sprintf("len%d", len(p))
+	}
+	return pwTag(p)
+}
+
 func pwTag(p []byte) string {
 	h := sha256.Sum256(p)
 	return fmt.Sprintf("len%d/%x", len(p), h[:3])
@@ -354,8 +363,8 @@ func (s *c43sim) otherPasswords(m *macc) (names []string, pws [][]byte) {
 }
 
 // verify: the account decrypts with its password to the model's key pair (through lookup path
-// `via`) and with none of nWrong other sampled passwords. mustOld forces the most recent old
-// password into the sample.
+// `via`) and with none of nWrong other sampled passwords; the most recent previous password, if
+// there is one, is always the first of them.
 func (s *c43sim) verify(m *macc, why string, via int64, nWrong int, rng *kernel.RNG) bool {
 	var acc *account.Account
 	var err error
@@ -399,7 +408,7 @@ func (s *c43sim) verify(m *macc, why string, via int64, nWrong int, rng *kernel.
 			return false
 		}
 		if e2 == nil || a2 != nil {
-			s.fail("other-password-accepted", "%s: account #%d (%s) with password %s was opened by %s with another password (%s, %s)", why, m.ord, m.kind, pwTag(m.pw), p2, names[j], pwTag(pws[j]))
+			s.fail("other-password-accepted", "%s: account #%d (%s) with password %s was opened by %s with another password (%s, %s)", why, m.ord, m.kind, pwTag(m.pw), p2, names[j], safeTag(names[j], pws[j]))
 			return false
 		}
 		s.wrongRejected++
@@ -591,7 +600,7 @@ func init() {
 			"two passwords with the same HMAC-SHA256 key normal form (zero-padded to 64 bytes; SHA-256 digest if longer) are the same password for scrypt/PBKDF2 and are never sampled as 'another password' (p and p+\"\\x00\" are equivalent)",
 			"keys and salts come from crypto/rand inside poly; the trace identifies accounts by ordinal and is independent of them",
 			"ImportAccount is only called for addresses not present in the wallet, as the command line does"},
-		QuickRuns: 32, ThoroughRuns: 1600, QuickCap: 40, ThoroughCap: 900,
+		QuickRuns: 32, ThoroughRuns: 800, QuickCap: 40, ThoroughCap: 900,
 		RequiredProbes: []string{"account_created", "account_imported", "password_changed", "account_deleted", "restart_with_accounts", "wrong_password_rejected", "old_password_rejected",
 			"wrong_password_operation_refused", "label_changed", "default_changed"},
 		Generate: genC43,
@@ -660,12 +669,16 @@ func genC43(rng *kernel.RNG, idx int, tier string) *kernel.Plan {
 			}
 			steps = append(steps, st("chpass", int64(rng.Intn(8)), mode, p[0], p[1], p[2]))
 			cost += 6
-		case r < 57:
+		case r < 59:
 			mode := int64(0)
-			if rng.Chance(wrongP + 0.2) {
+			if rng.Chance(wrongP + 0.1) {
 				mode = int64(1 + rng.Intn(6))
 			}
-			steps = append(steps, st("delete", int64(rng.Intn(8)), mode))
+			sel := int64(rng.Intn(8))
+			if rng.Chance(0.6) {
+				sel = int64(1 + rng.Intn(4)) // away from the first account, which usually is the (undeletable) default
+			}
+			steps = append(steps, st("delete", sel, mode))
 			cost += 2
 			if mode == 0 && live > 1 {
 				live--
@@ -779,7 +792,10 @@ func execC43(run *kernel.Run) {
 			pri := detKey(p.Seed, kind, abs64(a(5))%3)
 			pub := pri.Public()
 			addr := b58(types.AddressFromPubKey(pub))
-			if md := s.cli.GetAccountMetadataByAddress(addr); md != nil {
+			// The command line refuses to import an address that is already in the wallet; so does
+			// the harness. Cfg "dupimport"=1 (never generated; for hand-written replay plans) lifts
+			// the guard and lets ImportAccount see the duplicate.
+			if md := s.cli.GetAccountMetadataByAddress(addr); md != nil && p.C("dupimport", 0) == 0 {
 				run.Probe("import_skipped_address_exists")
 				s.note("import %s key%d -> skipped, address already in the wallet", kind.name, abs64(a(5))%3)
 				break
@@ -811,6 +827,12 @@ func execC43(run *kernel.Run) {
 				run.Probe("import_refused")
 				s.note("import %s key%d label=%q pw=%s -> refused", kind.name, abs64(a(5))%3, label, pwTag(pw))
 				break
+			}
+			for _, o := range s.accs {
+				if o.live && o.addr == addr {
+					o.live = false // only reachable with dupimport: the new entry replaces the old one in the model
+					o.def = false
+				}
 			}
 			m := s.addAccount(kind, pri, pub, pw, scheme.Name(), true)
 			s.mutated()
@@ -908,7 +930,7 @@ func execC43(run *kernel.Run) {
 				break
 			}
 			s.scrypt += 2
-			s.note("chpass #%d old=%s(%s) new=%s -> ok=%v", m.ord, oldName, pwTag(old), pwTag(newPw), err == nil)
+			s.note("chpass #%d old=%s(%s) new=%s -> ok=%v", m.ord, oldName, safeTag(oldName, old), pwTag(newPw), err == nil)
 			if wrong {
 				if err == nil && !bytes.Equal(old, newPw) {
 					s.fail("wrong-password-accepted", "%s: ChangePassword on account #%d succeeded with a wrong old password (%s)", why, m.ord, oldName)
@@ -998,7 +1020,7 @@ func execC43(run *kernel.Run) {
 			}
 			s.note("get #%d via=%s with %s -> opened=%v", m.ord, path, name, acc != nil && err == nil)
 			if err == nil || acc != nil {
-				s.fail("other-password-accepted", "%s: account #%d with password %s was opened by %s with another password (%s, %s)", why, m.ord, pwTag(m.pw), path, name, pwTag(pw))
+				s.fail("other-password-accepted", "%s: account #%d with password %s was opened by %s with another password (%s, %s)", why, m.ord, pwTag(m.pw), path, name, safeTag(name, pw))
 				break
 			}
 			s.wrongRejected++
